@@ -1156,7 +1156,14 @@ func (d *Pegnetd) applyTransactionBatch(
 			if err != nil {
 				return err
 			}
-			balances[tx.Input.Address][tx.Conversion] += uint64(outputAmount)
+			// PEG requested while the bank limits conversions is only paid out
+			// once all batches of the block are known (recordPegnetRequests): it
+			// cannot fund a later transaction of the same batch. Counting it
+			// here let such a batch pass this check and then run dry in
+			// recordBatch, which fails the block on every attempt.
+			if !(currentHeight >= config.PegnetConversionLimitActivation && tx.IsPEGRequest()) {
+				balances[tx.Input.Address][tx.Conversion] += uint64(outputAmount)
+			}
 		} else {
 			balances[tx.Input.Address][tx.Input.Type] -= tx.Input.Amount
 			for _, transfer := range tx.Transfers {
